@@ -779,6 +779,20 @@ func (s *scenario) send(spec reqSpec) {
 		}
 	}
 	sort.Strings(got)
+	// the coordinator lookups the transport made for this request: key, key type and where they went
+	var fcs []string
+	if key != protocol.FindCoordinator {
+		for _, e := range s.c.Since(mark) {
+			if fr, ok := e.Req.(*findcoordinator.Request); ok {
+				fcs = append(fcs, fmt.Sprintf("%s/%d@b%d", dash(fr.Key), fr.KeyType, e.Broker))
+			}
+		}
+		sort.Strings(fcs)
+	}
+	fcSuffix := ""
+	if len(fcs) > 0 {
+		fcSuffix = " fc=" + strings.Join(fcs, ",")
+	}
 	kind := ""
 	if err != nil {
 		kind = errKind(err)
@@ -788,11 +802,11 @@ func (s *scenario) send(spec reqSpec) {
 	}
 	switch {
 	case err != nil && len(got) == 0:
-		emit(op, "err "+kind)
+		emit(op, "err "+kind+fcSuffix)
 	case err != nil:
-		emit(op, strings.Join(got, ",")+" err "+kind)
+		emit(op, strings.Join(got, ",")+" err "+kind+fcSuffix)
 	default:
-		emit(op, dash(strings.Join(got, ",")))
+		emit(op, dash(strings.Join(got, ","))+fcSuffix)
 	}
 }
 
@@ -824,6 +838,9 @@ func (s *scenario) randomSpec() reqSpec {
 		}
 		return sp
 	case 7:
+		if r.Intn(3) == 0 { // a transactional id that is also a group name: only the key type tells the two coordinators apart
+			return reqSpec{pkg: pick(r, txnPkgs), txn: "g" + strconv.Itoa(r.Intn(6))}
+		}
 		return reqSpec{pkg: pick(r, txnPkgs), txn: "x" + strconv.Itoa(r.Intn(6))}
 	case 8:
 		return reqSpec{pkg: pick(r, controllerPkgs)}
@@ -1125,6 +1142,98 @@ func followLeader(r *rand.Rand, ttl time.Duration, rounds int) {
 	emit(fmt.Sprintf("follow ttl=%d faults=%s", ttl.Milliseconds(), dash(strings.Join(script, ","))), fmt.Sprintf("within=%d gap=%d", within, gap))
 }
 
+// opRoundTripMeta: metadata requests through (*connPool).roundTrip — served from the cache, or (AllowAutoTopicCreation
+// and an unknown topic) sent to a broker, after which the transport waits until the created topics are cached.
+//
+//	rtmeta <names|nil> <auto> <fakeAuto> <meta> → "asked=<0|1> <topics> after=<topics of a plain follow-up request>"
+func opRoundTripMeta(seed int64, n int) {
+	r := rand.New(rand.NewSource(seed))
+	c := fakecluster.New()
+	ids, boot := fakecluster.PickBrokers(r, 1, 4)
+	for _, id := range ids {
+		c.AddBroker(id)
+	}
+	c.Controller = ids[r.Intn(len(ids))]
+	c.AutoCreate = r.Intn(3) != 0
+	for _, nme := range names[:5] {
+		t := &fakecluster.Topic{Parts: map[int32]*fakecluster.Part{}}
+		for p := int32(0); p < int32(1+r.Intn(3)); p++ {
+			l := ids[r.Intn(len(ids))]
+			t.Parts[p] = &fakecluster.Part{Leader: l, Replicas: []int32{l}, Isr: []int32{l}}
+		}
+		c.Topics[nme] = t
+	}
+	tr := &kafka.Transport{Dial: c.Dial, MetadataTTL: 10 * time.Second}
+	defer func() { tr.CloseIdleConnections(); c.Close() }()
+	addr := kafka.TCP(c.Brokers[boot].Addr())
+	rt := func(req *metadata.Request) (*metadata.Response, bool, error) {
+		mark := c.Mark()
+		ctx, cancel := context.WithTimeout(context.Background(), 5*time.Second)
+		defer cancel()
+		m, err := tr.RoundTrip(ctx, addr, req)
+		asked := false
+		for _, e := range c.Since(mark) {
+			if mr, ok := e.Req.(*metadata.Request); ok && mr.TopicNames != nil {
+				asked = true
+			}
+		}
+		if err != nil {
+			return nil, asked, err
+		}
+		return m.(*metadata.Response), asked, nil
+	}
+	if _, _, err := rt(&metadata.Request{}); err != nil {
+		return
+	}
+	fresh := 0
+	for i := 0; i < n; i++ {
+		var req metadata.Request
+		nm := "nil"
+		if r.Intn(5) != 0 {
+			req.TopicNames = []string{}
+			for k := 0; k < r.Intn(4); k++ {
+				if r.Intn(3) == 0 {
+					fresh++
+					req.TopicNames = append(req.TopicNames, fmt.Sprintf("new%d", (seed%100)*1000+int64(fresh)))
+				} else {
+					req.TopicNames = append(req.TopicNames, names[r.Intn(7)])
+				}
+			}
+			nm = dash(strings.Join(req.TopicNames, ","))
+		}
+		req.AllowAutoTopicCreation = r.Intn(2) == 0
+		cache := c.LastMeta()
+		if cache == nil {
+			return
+		}
+		auto, fauto := 0, 0
+		if req.AllowAutoTopicCreation {
+			auto = 1
+		}
+		if c.AutoCreate {
+			fauto = 1
+		}
+		op := fmt.Sprintf("rtmeta %s %d %d %s", nm, auto, fauto, encMeta(cache))
+		res, asked, err := rt(&req)
+		if err != nil {
+			emit(op, "err "+errKind(err))
+			continue
+		}
+		a := 0
+		if asked {
+			a = 1
+		}
+		plain := req
+		plain.AllowAutoTopicCreation = false
+		after, asked2, err := rt(&plain)
+		if err != nil || asked2 {
+			emit(op, fmt.Sprintf("asked=%d %s after=err", a, canonTopics(res.Topics)))
+			continue
+		}
+		emit(op, fmt.Sprintf("asked=%d %s after=%s", a, canonTopics(res.Topics), canonTopics(after.Topics)))
+	}
+}
+
 func main() {
 	defer out.Flush()
 	r := gen.New()
@@ -1136,6 +1245,9 @@ func main() {
 	opLayoutFilterBroker(r, nF)
 	for i := 0; i < nScen; i++ {
 		runScenario(gen.Seed()*1000+int64(i), steps)
+	}
+	for i := 0; i < nScen/4+1; i++ {
+		opRoundTripMeta(gen.Seed()*100+int64(i), 25)
 	}
 	nFollow := 8
 	if gen.Thorough() {
